@@ -8,6 +8,13 @@ pid, wt, rnd = sys.argv[1], sys.argv[2], sys.argv[3]
 prop = [json.loads(l) for l in open(os.path.join(ROOT, "properties.jsonl")) if json.loads(l)["id"] == pid][0]
 prev = json.load(open(os.path.join(ROOT, ".work", "round1-seeds.json"))).get(pid, [])
 root_pkg = any("/" not in f for f in prop["anchors"]["files"])
+R3 = "" if rnd != "3" else """
+Round-3 emphasis: two earlier rounds already seeded the obvious spots (the list above). Look for SUBTLER breakage:
+at least one of your three changes should consist of TWO cooperating edits in different functions/files that each look
+harmless alone; at least one should only manifest under a particular interleaving, timing (timer/deadline ordering) or a
+fault at a particular point (loss/duplication/reordering of one specific packet, an error return from one specific
+call); prefer rarely-taken branches (error paths, version 2, 0-RTT, retry, key update, path migration, zero-length
+connection IDs, boundary sizes, wrap-around values) that the property nevertheless quantifies over."""
 t = f"""# TASK for an independent "bug seeder" — property {pid}, round {rnd}
 
 You are a careful Go engineer acting as a bug seeder for a robustness study. Work ONLY inside this scratch git worktree
@@ -50,6 +57,7 @@ prefer code locations not listed here, in particular CALLERS and glue code aroun
 {chr(10).join('- ' + f + ': ' + s for f, s in prev) or '- (none)'}
 
 Spread your three changes over different sentences of the property and different files where possible.
+{R3}
 
 ## Output
 
